@@ -118,6 +118,7 @@ def oracle_trace(ops, obs, pid='C03', kind=None):
     cur = {}
     nontrivial = False
     hcount = {}
+    copyundo = set()     # (oid, tid) of undo records that are plain copies (back pointers)
 
     def bump(k):
         hcount[k] = hcount.get(k, 0) + 1
@@ -305,8 +306,8 @@ def oracle_trace(ops, obs, pid='C03', kind=None):
                 exp_calls = [expected_call(pre, und, curw)] if resolvable_class(pre) else []
                 merged = expected_merge(pre, und, curw)
                 exp_out = ('ok ' + merged) if merged is not None else 'err:Undo'
-                if idx != len(h) - 1 and len(h) - 1 - idx >= 1 and isinstance(h[-1], tuple) and len(h[-1]) > 2:
-                    bump('undo-over-undo-record')
+                if (oid, h[-1][0]) in copyundo:
+                    bump('undo-resolves-against-backpointer-current')
             if exp_out is not None:
                 got_out = ' '.join(x for x in parts if not x.startswith('call='))
                 if calls != exp_calls:
@@ -318,6 +319,8 @@ def oracle_trace(ops, obs, pid='C03', kind=None):
                               'op %d %r: undo gave %s, expected %s' % (i, op, got_out, exp_out)))
             if first == 'ok' and len(parts) > 1:
                 hist.setdefault(oid, []).append((tid, parts[1]))
+                if not calls:
+                    copyundo.add((oid, tid))
         elif o == 'cur':
             p = last(int(tk[1]))
             exp = str(p[0]) if p else 'none'
